@@ -341,8 +341,8 @@ def gen_cases(rng, tier, pseed):
     add([True, True], "sub", ["int", 1], ["var", "I16"], ((3,), (3,)))
     add([True, True], "add", ["var", "U8"], ["int", 300], ((3,), (3,)))                   # OverflowError
     thorough = tier == "thorough"
-    nvs = 3 if thorough else 1
-    np_frac = 1.0 if thorough else 0.22
+    nvs = 6 if thorough else 2
+    np_frac = 1.0
     for vs in range(nvs):
         for d in SETTINGS:
             d = list(d)
@@ -570,10 +570,32 @@ class Batch:
         return self.args[key], self.feeds[key]
 
     def run(self):
+        """Results by output name; if the whole model is rejected, retry in pieces so one bad expression does not
+        hide the others (the rejected ones are returned under the key '!rejected')."""
         if not self.outs:
             return {}
+        try:
+            return self._run(dict(self.outs))
+        except Exception as e:  # noqa: BLE001
+            first_err = f"{type(e).__name__}: {str(e)[:800]}"
+        res, rejected = {}, {}
+        names = list(self.outs)
+        for i in range(0, len(names), 40):
+            part = {n: self.outs[n] for n in names[i:i + 40]}
+            try:
+                res.update(self._run(part))
+            except Exception:  # noqa: BLE001
+                for n, v in part.items():
+                    try:
+                        res.update(self._run({n: v}))
+                    except Exception as e2:  # noqa: BLE001
+                        rejected[n] = f"{type(e2).__name__}: {str(e2)[:600]}"
+        res["!rejected"] = rejected or {"<whole model only>": first_err}
+        return res
+
+    def _run(self, outs):
         ort = self.impl.ort
-        model = self.impl.spox.build(dict(self.args), dict(self.outs))
+        model = self.impl.spox.build(dict(self.args), outs)
         so = ort.SessionOptions()
         so.graph_optimization_level = ort.GraphOptimizationLevel.ORT_DISABLE_ALL
         so.log_severity_level = 3
@@ -719,7 +741,7 @@ def classify_value_mismatch(impl: Impl, case, rec, got, exp, qdiv):
     np = impl.np
     name = case["op"]
     if got.dtype != exp.dtype:
-        return f"C17/{name}/result-dtype/{impl.ety(got.dtype)}-vs-numpy-{impl.ety(exp.dtype)}", "result element type differs from numpy's"
+        return f"C17/{name}/{kinds_of(case)}/result-dtype-differs-from-numpy", "result element type differs from numpy's"
     if name == "floordiv" and exp.dtype.kind == "i":
         dt = exp.dtype
         xc = np.asarray(rec["xa"]).astype(dt) if not isinstance(rec["xa"], int) else np.array(rec["xa"], dtype=dt)
@@ -737,8 +759,7 @@ def classify_value_mismatch(impl: Impl, case, rec, got, exp, qdiv):
         if div_correct and is_floor_of_div:
             return KEY_F10B, ("float //: Floor(Div(a, b)) differs from numpy.floor_divide where the correctly rounded quotient a/b "
                               "rounds to an integer above the exact quotient (1.0 // 0.1: numpy 9.0, Floor(Div) 10.0)")
-    tys = "-".join(d[1] if d[0] in ("var", "np") else d[0] for d in (case["x"], case["y"]) if d is not None)
-    return f"C17/{name}/{tys}/value-differs-from-numpy", "result values differ from numpy's on the same operands"
+    return f"C17/{name}/{kinds_of(case)}/value-differs-from-numpy", "result values differ from numpy's on the same operands"
 
 
 # ------------------------------------------------------------------------------------------------ model side
@@ -815,16 +836,18 @@ def evaluate(run: Run, impl: Impl, cases, rt_body, prop_every, hist, name="c17")
     stats = {"ort_models": 0, "ort_outputs": 0, "value_checks": 0, "propagated_checks": 0, "model_value_triples": 0,
              "matching_pinned_model_only": 0, "numpy_error_agreements": 0}
     BATCH = 700
+    install_cap(run, stats)
     for b0 in range(0, len(cases), BATCH):
         op = impl.opsets[(b0 // BATCH) % len(impl.opsets)]
         batch = Batch(impl, op)
         brecs = [run_case_impl(impl, batch, c, b0 + k) for k, c in enumerate(cases[b0:b0 + BATCH])]
-        try:
-            results = batch.run()
-        except Exception as e:  # noqa: BLE001
-            run.fail("impl", "C17/built-model-rejected", "onnxruntime rejects the model built from overloaded-operator expressions",
-                     {"error": f"{type(e).__name__}: {str(e)[:1500]}", "first_case": describe(cases[b0])})
-            results = {}
+        results = batch.run()
+        for n, why in (results.pop("!rejected", None) or {}).items():
+            cidx = int(n[1:]) if n[1:].isdigit() else None
+            bc = cases[cidx] if cidx is not None else cases[b0]
+            run.fail("impl", f"C17/{bc['op']}/{kinds_of(bc)}/built-model-rejected",
+                     "onnxruntime rejects the model built from an overloaded-operator expression",
+                     {"expression": describe(bc), "case": bc, "error": why})
         stats["ort_models"] += 1
         stats["ort_outputs"] += len(results)
         for rec in brecs:
@@ -860,9 +883,37 @@ def evaluate(run: Run, impl: Impl, cases, rt_body, prop_every, hist, name="c17")
     return recs, triples, bad, stats
 
 
+def kinds_of(case):
+    """Operand-kind class used in keys of fresh findings: var / int / float / np, with the dtype family for Vars."""
+    def fam(d):
+        if d[0] != "var":
+            return d[0]
+        return "var:" + ("sint" if d[1] in SINT else "uint" if d[1] in UINT else "float" if d[1] in FLT else "bool")
+    return "-".join(fam(d) for d in (case["x"], case["y"]) if d is not None)
+
+
 def numeric_operands(case):
     """All operand element types are integer or floating (the property's quantifier; bool is excluded)."""
     return all(q is None or q[0] in ("int", "float") or q[1] in NUMERIC for q in (case["x"], case["y"]))
+
+
+DESIGNATED = {KEY_F10A, KEY_F10B, KEY_F21, KEY_NEGU}
+MAX_FRESH = 12
+
+
+def install_cap(run: Run, stats):
+    """Keep the report readable when an edit breaks whole families: at most MAX_FRESH distinct fresh findings per kind
+    (designated mechanism keys are never dropped); the rest is counted."""
+    orig = run.fail
+
+    def capped(kind, key, what, detail=None):
+        if key not in DESIGNATED and not any(f.key == key and f.kind == kind for f in run.failures):
+            if sum(1 for f in run.failures if f.kind == kind and f.key not in DESIGNATED) >= MAX_FRESH:
+                stats["suppressed_further_findings"] = stats.get("suppressed_further_findings", 0) + 1
+                return
+        orig(kind, key, what, detail)
+
+    run.fail = capped
 
 
 def oracle_errors(run: Run, impl: Impl, case, rec):
@@ -925,8 +976,7 @@ def oracle_errors(run: Run, impl: Impl, case, rec):
             rec["numpy_error_agrees"] = True
             return
         if rec["outcome"] != "ok" and exp[0] == "value" and numeric_operands(case) and (d[1] or (x[0] == "var" and y[0] == "var")):
-            tys = "-".join(q[1] if q[0] in ("var", "np") else q[0] for q in (x, y) if q is not None)
-            run.fail("impl", f"C17/{case['op']}/{tys}/error-where-numpy-computes",
+            run.fail("impl", f"C17/{case['op']}/{kinds_of(case)}/error-where-numpy-computes",
                      "type promotion on: the operator raises although numpy computes a result for these operands",
                      {"expression": describe(case), "case": case, "implementation": rec["outcome"] + " " + str(rec.get("err", rec.get("other", ""))),
                       "numpy": {"dtype": str(impl.np.asarray(exp[1]).dtype)}})
@@ -967,7 +1017,7 @@ def report_model_mismatches(run: Run, rt_body, recs, bad, stats):
             continue
         real.append((idx, code))
     known_impl = {f.key for f in run.failures if f.kind == "impl"}
-    if stats["matching_pinned_model_only"] and not ({KEY_F10A, KEY_F21} & known_impl):
+    if stats["matching_pinned_model_only"] and not ({KEY_F10A, KEY_F21, KEY_NEGU} & known_impl):
         idx = next(i for i, c in sorted(bad.items()) if c % 10 == 0 and c >= 10)
         run.fail("corr", "C17/unrepaired-variant-without-oracle-failure",
                  "the implementation matches the model of the unrepaired code but the value oracle found no violation",
@@ -977,8 +1027,7 @@ def report_model_mismatches(run: Run, rt_body, recs, bad, stats):
         r = by_idx[idx]
         c = r["case"]
         kind = "emitted tree / result type / error class" if code // 10 == 1 else "integer values (model's Z semantics vs onnxruntime)"
-        tys = "-".join(d[1] if d[0] in ("var", "np") else d[0] for d in (c["x"], c["y"]) if d is not None)
-        run.fail("corr", f"C17/model-vs-impl/{c['op']}/{tys}/{'' if c['d'] is None else ''.join('T' if v else 'F' for v in c['d'])}",
+        run.fail("corr", f"C17/model-vs-impl/{c['op']}/{kinds_of(c)}/{'outside' if c['d'] is None else ''.join('T' if v else 'F' for v in c['d'])}",
                  f"model and implementation disagree on {kind}",
                  {"expression": describe(c), "case": c, "code": code, "implementation": r["coq"] or r.get("other"),
                   "model (repaired, pinned)": mt})
@@ -989,7 +1038,16 @@ def report_model_mismatches(run: Run, rt_body, recs, bad, stats):
 
 
 def run(run: Run) -> int:
-    run.check_theorems(PROPS, CONE, thorough_coqchk=(run.tier == "thorough"))
+    ok = run.check_theorems(PROPS, CONE, thorough_coqchk=False)
+    if run.tier == "thorough" and ok:
+        # common.check_theorems' own coqchk call names the scratch copy Scratch.C17 although it was compiled as C17;
+        # check the built library of the development instead
+        t = time.time()
+        rc, out = sh(f"timeout 900 coqchk -silent -o -R {COQ} Spox Spox.props.C17", cwd=COQ, timeout=930)
+        run.cov["coqchk"] = {"rc": rc, "tail": out[-400:], "wall_s": round(time.time() - t, 1)}
+        if rc != 0:
+            run.fail("proof", "coqchk", "coqchk rejected the compiled property file", out[-2000:])
+            run.discharged = 0
     rt_body, tinfo = table_obligation(run)
     impl = Impl()
     pseed = run.seed
@@ -1024,9 +1082,11 @@ def run(run: Run) -> int:
         "oracle": stats,
         "input_distribution": hist,
         "samples": samples,
-        "exhaustive": run.tier == "thorough",
-        "exhaustive_family": "Var x Var over all 12x12 element types, all 5 arithmetic operators, all 4 settings (both tiers); "
-                             "numpy-scalar operands: all 12x12x2 in thorough, a 22% sample in quick",
+        "exhaustive": True,
+        "exhaustive_family": "operand KINDS are enumerated completely in both tiers: all 5 arithmetic operators x all 4 settings x "
+                             "(Var x Var over 12x12 element types, Var with Python int / Python float on either side, Var with a numpy scalar of "
+                             "each of the 12 dtypes on either side), the 3 logical and 2 unary operators, and every operator outside a block; "
+                             "operand VALUES, scalar values and shape pairs are sampled (thorough: 6 value sets per kind combination)",
     }
     return run.finish(cov, [
         "onnxruntime's Add/Sub/Mul/Div/Neg/Cast/Floor on the CPU provider are the operations of the ONNX specification "
@@ -1064,10 +1124,13 @@ def replay(run: Run, case) -> int:
     report_model_mismatches(run, rt_body, recs, bad, stats)
     for f in run.failures:
         print(f"  [{f.kind}] {f.key}: {f.what}")
-    badrun = bool(run.failures)
-    if badrun:
+    fresh = [f for f in run.failures if not (f.kind == "impl" and run.is_known(f.key))]
+    for f in run.failures:
+        if f not in fresh:
+            print(f"KNOWN-FINDING: property=C17 {f.what} [{f.key}]")
+    if fresh:
         print("VIOLATION property=C17 replay=" + str(case.get("key")))
-    return 1 if badrun else 0
+    return 1 if fresh else 0
 
 
 if __name__ == "__main__":
